@@ -106,6 +106,7 @@ func (h *Hist) begin(op string, owners ...string) {
 	h.group++
 	h.curOp = op
 	h.curOwner = owners
+	h.obsArg = ""
 	if h.unchecked == 0 {
 		if len(h.dirty) > 0 {
 			h.prevDirty = h.dirty
@@ -118,6 +119,7 @@ func (h *Hist) begin(op string, owners ...string) {
 
 func (h *Hist) touch(n *Node) {
 	h.dirty[n.ID] = true
+	h.lastTouch[n.ID] = h.step
 	if h.aliased {
 		h.mutAfterAlias = true
 	}
@@ -188,6 +190,7 @@ func (h *Hist) bound(isObj, wantObj bool, any bool) []*Node {
 func (h *Hist) again(wantObj, any bool) *Node {
 	if f := h.force; f != nil && f.Impl != nil && (any || f.IsObj == wantObj) {
 		// inside an observe-mutate-observe sandwich every pick that can goes to the same container
+		h.last = f
 		return f
 	}
 	if h.last != nil && h.last.Impl != nil && (any || h.last.IsObj == wantObj) && h.d.Draw("pick-again", 3) == 0 {
@@ -1086,7 +1089,9 @@ func opSummaries(h *Hist) {
 	if n == nil {
 		return
 	}
-	h.begin("Summaries", h.ownerOf(n)...)
+	// (what the assertions and sums say about given elements belongs to C14/C18, which are not simulation targets; here they are
+	// observers of hidden state, and a wrong answer is reported only through the relation-based attribution of fail())
+	h.begin("Summaries", "C18")
 	var want [7]bool
 	for i := range want {
 		want[i] = true
@@ -1116,6 +1121,23 @@ func opSummaries(h *Hist) {
 	h.tracef("%s summaries %v sum=%d panicked=%v", n.Name, got, gotSum, p)
 	if !h.mustNotPanic(p, msg) {
 		return
+	}
+	if got != want || gotSum != sum || gotProd != prod {
+		// the same questions to a brand-new list with the same elements: right there and wrong here means that this list carries
+		// something besides its elements
+		var tg [7]bool
+		var ts, tp int
+		if p, _ := h.call(func() {
+			tw := at.NewList()
+			for _, v := range n.Elems {
+				tw.Add(v.goValue())
+			}
+			tg = [7]bool{tw.AllObjects(), tw.AllLists(), tw.AllStrings(), tw.AllBools(), tw.AllInts(), tw.AllFloats(), tw.AllNumeric()}
+			ts, tp = tw.IntSum(), tw.IntProd()
+		}); !p && tg == want && ts == sum && tp == prod {
+			h.twinOK = true
+			defer func() { h.twinOK = false }()
+		}
 	}
 	for i := range want {
 		if got[i] != want[i] {
@@ -1631,6 +1653,7 @@ func opSearch(h *Hist) {
 	h.begin(name, append(h.ownerOf(n), "C09")...)
 	h.curOwner = h.ownerOf(n)
 	gv, mv, foreign := h.genSearch(vals)
+	h.obsArg = short(canon(gv, nil), 60)
 	first := -1
 	for i, v := range vals {
 		if !foreign && v.goEq(mv) {
